@@ -61,6 +61,7 @@ theorem C08_missing_file_regenerates {Src Cfg Key Content : Type} [DecidableEq K
 def requiredFields : List (String × String) := [
   ("CommandHashData", "name"), ("CommandHashData", "return_type"), ("CommandHashData", "parameters"),
   ("CommandHashData", "channels"), ("CommandHashData", "serde_rename_all"),
+  ("CommandHashData", "line_number"),   -- printed by the dependency visualisation (fix aa6995a)
   ("ParameterHashData", "name"), ("ParameterHashData", "rust_type"), ("ParameterHashData", "serde_rename"),
   ("ChannelHashData", "parameter_name"), ("ChannelHashData", "message_type"),
   ("StructHashData", "name"), ("StructHashData", "is_enum"), ("StructHashData", "fields"),
